@@ -411,3 +411,98 @@ PROPS["C12"] = Prop(
          "(values, tags, sensitivities), look-ups and index values with gradients and Hessians by name",
     classify=_cls_curve, mode="close", exhaustive=lambda tier: False, trusted=_curve_trusted + _dual_trusted[:1],
     assumptions=_dual_assume)
+
+
+# ---------------------------------------------------------------------------------------------
+# FX
+
+def _parse_num(tok_iter_list):
+    """parse one formatted Number starting at index 0 of a token list; returns (kind, real, {name: grad})"""
+    t = tok_iter_list
+    if not t:
+        return None
+    if t[0] == "F":
+        return ("F", f_of_hex(t[1]), {})
+    if t[0] in ("D", "D2"):
+        real = f_of_hex(t[1])
+        grads = {}
+        i = 4 if t[0] == "D" else 6
+        while i + 1 < len(t) and t[i] != "|":
+            grads[t[i]] = f_of_hex(t[i + 1])
+            i += 2
+        return (t[0], real, grads)
+    return None
+
+
+def _cls_fx(t, impl):
+    op = t[0]
+    if op == "fx":
+        return "fx:n=%s:%s" % (t[3], impl), True
+    if op == "fxrate":
+        return "fxrate:" + _kind_of(impl), True
+    if op in ("fxupdate", "fxorder"):
+        return "%s:%s" % (op, impl), True
+    if op in ("fxdump", "fxad"):
+        return op, True
+    return None, False
+
+
+def _oracle_fx(t, impl):
+    """model-free, on the implementation's own matrix: diagonal 1, rate x inverse = 1, triangle law,
+    and every first-order sensitivity to a plain-number quote fx_abc is 0 or +-rate/quote"""
+    if t[0] != "fxdump" or not impl.startswith("M "):
+        return None
+    head, *cells = [c.strip() for c in impl.split(";")]
+    ht = head.split()
+    n = int(ht[1])
+    ccys = ht[2:2 + n]
+    if len(cells) != n * n:
+        return "matrix has %d cells for %d currencies" % (len(cells), n)
+    nums = [_parse_num(c.split()) for c in cells]
+    if any(x is None for x in nums):
+        return "incomplete matrix"
+    R = lambda i, j: nums[i * n + j][1]
+    tol = 1e-9
+    for i in range(n):
+        if R(i, i) != 1.0:
+            return "%s against itself is %r" % (ccys[i], R(i, i))
+        for j in range(n):
+            if abs(R(i, j) * R(j, i) - 1.0) > tol:
+                return "rate x inverse = %r for %s/%s" % (R(i, j) * R(j, i), ccys[i], ccys[j])
+            for k in range(n):
+                if abs(R(i, j) * R(j, k) - R(i, k)) > tol * max(1.0, abs(R(i, k))):
+                    return "triangle law fails for %s %s %s" % (ccys[i], ccys[j], ccys[k])
+    idx = {c: i for i, c in enumerate(ccys)}
+    for i in range(n):
+        for j in range(n):
+            kind, real, grads = nums[i * n + j]
+            for name, g in grads.items():
+                if name.startswith("fx_") and len(name) == 9 and name[3:6] in idx and name[6:9] in idx:
+                    x = R(idx[name[3:6]], idx[name[6:9]])
+                    want = real / x
+                    if not (abs(g) <= tol * abs(want) or abs(abs(g) - abs(want)) <= 1e-7 * abs(want)):
+                        return "d %s%s / d %s = %r, expected 0 or +-%r" % (ccys[i], ccys[j], name, g, want)
+    return None
+
+
+_fx_trusted = [
+    "hand-written model of rust/fx/rates/mod.rs (lean/RateslibModel/Model/FX.lean): arrays as functions with functional "
+    "update, the recursion with fuel (n^2+1)(n+1)+1; tied to the code by the correspondence run",
+    "LLVM folds powf(x, -1.0) into 1.0/x in the Rust build while the driver calls libm pow: compared close-float",
+]
+
+PROPS["C09"] = Prop(
+    rule="random labelled trees by Prüfer sequences on n = 2..12 currencies, random orientation and quote order, random "
+         "base (or none), rates log-uniform 1e-2..1e2, with/without settlement; the same quotes re-ordered with another "
+         "base; malformed stream (missing / inverted duplicate / duplicate / cycle / mixed settlement). compared: ok/err, "
+         "every rate, full matrix; model-free oracle on the implementation's matrix (diagonal, inverse, triangle law)",
+    classify=_cls_fx, mode="close", exhaustive=lambda tier: False, trusted=_fx_trusted, assumptions=_dual_assume,
+    oracle=_oracle_fx, allow_badop=True)
+
+PROPS["C10"] = Prop(
+    rule="markets as C09 (n = 2..8, some quotes given as dual numbers with own variables) + histories of 0..12 ops (quote "
+         "updates of subsets, updates naming unknown/inverted pairs, order switches 0/1/2); after every op: order, full "
+         "matrix with gradients and Hessians by name, and a market built directly from the latest quotes; model-free "
+         "oracle: every sensitivity to fx_abc is 0 or +-rate/quote",
+    classify=_cls_fx, mode="close", exhaustive=lambda tier: False, trusted=_fx_trusted, assumptions=_dual_assume,
+    oracle=_oracle_fx)
